@@ -27,6 +27,24 @@ import (
 
 var ovPaths = []string{"/a", "/a/b", "/a/b/c", "/a/d", "/e"}
 
+// ovNames maps the abstract component names to concrete ones; the "nasty" map uses names that start with the
+// characters of the whiteout prefix (".", "w", "h") and contain dots and spaces.
+var ovNames = map[string]map[string]string{
+	"plain": {},
+	"nasty": {"a": "a.d", "b": "hosts", "c": ".cache", "d": "www x", "e": "e"},
+}
+
+func ovMap(p, nm string) string {
+	m := ovNames[nm]
+	parts := strings.Split(p, "/")
+	for i, c := range parts {
+		if v, ok := m[c]; ok {
+			parts[i] = v
+		}
+	}
+	return strings.Join(parts, "/")
+}
+
 type ovCase struct {
 	Layers [][]struct {
 		Path string `json:"path"`
@@ -58,10 +76,12 @@ type ovObs struct {
 func ovTar(layer []struct {
 	Path string `json:"path"`
 	Kind string `json:"kind"`
-}, spelling string, explicitParents bool) ([]byte, error) {
+}, spelling string, explicitParents bool, nm string) ([]byte, error) {
 	var ents []tarEntry
 	seenDir := map[string]bool{}
-	for _, e := range layer {
+	for _, e0 := range layer {
+		e := e0
+		e.Path = ovMap(e0.Path, nm)
 		if explicitParents {
 			for _, d := range parentsOf(e.Path) {
 				if !seenDir[d] {
@@ -79,7 +99,7 @@ func ovTar(layer []struct {
 			seenDir[e.Path] = true
 			ents = append(ents, tarEntry{Name: spell(e.Path, spelling, true), Type: tar.TypeDir, Mode: 0755})
 		case "link":
-			ents = append(ents, tarEntry{Name: spell(e.Path, spelling, false), Type: tar.TypeSymlink, Mode: 0777, Linkname: "/e"})
+			ents = append(ents, tarEntry{Name: spell(e.Path, spelling, false), Type: tar.TypeSymlink, Mode: 0777, Linkname: ovMap("/e", nm)})
 		case "wh":
 			w := path.Join(path.Dir(e.Path), ".wh."+path.Base(e.Path))
 			ents = append(ents, tarEntry{Name: spell(w, spelling, false), Type: tar.TypeReg, Mode: 0644})
@@ -110,10 +130,10 @@ func kindOfInfo(fi fs.FileInfo, content []byte, haveContent bool) string {
 	return "other:" + m.String()
 }
 
-func probeFS(fsys scalibrfs.FS) ovLayerObs {
+func probeFS(fsys scalibrfs.FS, nm string) ovLayerObs {
 	o := ovLayerObs{ReadDir: map[string][]string{}}
 	for _, p := range ovPaths {
-		rel := strings.TrimPrefix(p, "/")
+		rel := strings.TrimPrefix(ovMap(p, nm), "/")
 		fi, err := fsys.Stat(rel)
 		if err != nil {
 			if errors.Is(err, fs.ErrNotExist) {
@@ -142,9 +162,18 @@ func probeFS(fsys scalibrfs.FS) ovLayerObs {
 		}
 		if ents, err := fsys.ReadDir(rel); err == nil {
 			names := []string{}
-			for _, e := range ents {
-				names = append(names, e.Name())
+			rev := map[string]string{}
+			for k, v := range ovNames[nm] {
+				rev[v] = k
 			}
+			for _, e := range ents {
+				n := e.Name()
+				if a, ok := rev[n]; ok {
+					n = a
+				}
+				names = append(names, n)
+			}
+			sort.Strings(names)
 			o.ReadDir[p] = names
 		}
 	}
@@ -166,9 +195,9 @@ func probeFS(fsys scalibrfs.FS) ovLayerObs {
 		return nil
 	})
 	for _, p := range ovPaths {
-		if k, ok := walked[p]; ok {
+		if k, ok := walked[ovMap(p, nm)]; ok {
 			o.Walk = append(o.Walk, k)
-			delete(walked, p)
+			delete(walked, ovMap(p, nm))
 		} else {
 			o.Walk = append(o.Walk, "-")
 		}
@@ -191,14 +220,14 @@ func maxFileUnder(dir string) int64 {
 	return m
 }
 
-func runOverlay(c *ovCase, spelling string, explicitParents bool, tmp string, extras bool) (obs ovObs) {
+func runOverlay(c *ovCase, spelling string, explicitParents bool, nm string, tmp string, extras bool) (obs ovObs) {
 	if c.Limit > 0 {
 		explicitParents = false // the parents of a skipped oversize file would be real entries the abstract layer does not have
 	}
-	obs.Variant = fmt.Sprintf("%s/parents=%v", spelling, explicitParents)
+	obs.Variant = fmt.Sprintf("%s/parents=%v/%s", spelling, explicitParents, nm)
 	var specs []layerSpec
 	for i, l := range c.Layers {
-		data, err := ovTar(l, spelling, explicitParents)
+		data, err := ovTar(l, spelling, explicitParents, nm)
 		if err != nil {
 			obs.Err = "harness tar: " + err.Error()
 			return
@@ -227,7 +256,7 @@ func runOverlay(c *ovCase, spelling string, explicitParents bool, tmp string, ex
 	for _, cl := range cls {
 		fsys := cl.FS()
 		var lo ovLayerObs
-		if p := Safely(func() { lo = probeFS(fsys) }); p != "" {
+		if p := Safely(func() { lo = probeFS(fsys, nm) }); p != "" {
 			obs.Panic = p
 		}
 		obs.Layers = append(obs.Layers, lo)
@@ -259,12 +288,12 @@ func runOverlay(c *ovCase, spelling string, explicitParents bool, tmp string, ex
 			obs.SquashErr = uerr.Error()
 		}
 		for _, p := range ovPaths {
-			fi, err := os.Lstat(filepath.Join(dir, filepath.FromSlash(p)))
+			fi, err := os.Lstat(filepath.Join(dir, filepath.FromSlash(ovMap(p, nm))))
 			if err != nil || !fi.Mode().IsRegular() {
 				obs.Squashed = append(obs.Squashed, "-")
 				continue
 			}
-			b, _ := os.ReadFile(filepath.Join(dir, filepath.FromSlash(p)))
+			b, _ := os.ReadFile(filepath.Join(dir, filepath.FromSlash(ovMap(p, nm))))
 			switch string(b) {
 			case "1":
 				obs.Squashed = append(obs.Squashed, "f1")
@@ -288,13 +317,13 @@ func runOverlay(c *ovCase, spelling string, explicitParents bool, tmp string, ex
 			if c.Limit > 0 {
 				rcfg.MaxFileBytes = int64(c.Limit)
 			}
-			rcfg.Requirer = require.NewFileRequirerPaths([]string{strings.TrimPrefix(obs.ReqPath, "/")})
+			rcfg.Requirer = require.NewFileRequirerPaths([]string{strings.TrimPrefix(ovMap(obs.ReqPath, nm), "/")})
 			var rimg *scimage.Image
 			var rerr error
 			p := Safely(func() { rimg, rerr = scimage.FromV1Image(v1img, rcfg) })
 			if p == "" && rerr == nil {
 				rcls, _ := rimg.ChainLayers()
-				obs.Required = probeFS(rcls[len(rcls)-1].FS()).Walk
+				obs.Required = probeFS(rcls[len(rcls)-1].FS(), nm).Walk
 				_ = rimg.CleanUp()
 			} else {
 				obs.Required = []string{"err:" + p + fmt.Sprint(rerr)}
@@ -308,7 +337,7 @@ func init() {
 	Register("overlay", func(e *Env) error {
 		Quiet()
 		os.Setenv("TMPDIR", e.Tmp)
-		variants := [][2]string{{"plain", "0"}, {"dot", "1"}, {"abs", "0"}, {"plain", "1"}}
+		variants := [][3]string{{"plain", "0", "plain"}, {"dot", "1", "nasty"}, {"abs", "0", "nasty"}, {"plain", "1", "plain"}, {"plain", "0", "nasty"}, {"dot", "0", "plain"}}
 		return MapCases(e, func(idx int, raw []byte) (any, error) {
 			var c ovCase
 			if err := json.Unmarshal(raw, &c); err != nil {
@@ -316,11 +345,11 @@ func init() {
 			}
 			v := variants[idx%len(variants)]
 			extras := e.Args["extras_every"] == "" || e.Args["extras_every"] == "1" || idx%2 == 0
-			runs := []ovObs{runOverlay(&c, v[0], v[1] == "1", e.Tmp, extras)}
+			runs := []ovObs{runOverlay(&c, v[0], v[1] == "1", v[2], e.Tmp, extras)}
 			if e.Args["allvariants"] == "1" {
 				for _, w := range variants {
 					if w != v {
-						runs = append(runs, runOverlay(&c, w[0], w[1] == "1", e.Tmp, false))
+						runs = append(runs, runOverlay(&c, w[0], w[1] == "1", w[2], e.Tmp, false))
 					}
 				}
 			}
